@@ -393,6 +393,26 @@ fn bulk_op(rng: &mut Rng, ctx: &Ctx, fam: &Fam, kind: &str, n: usize, with_edges
             *q = (a, b);
         }
     }
+    else if rng.chance(2) {
+        // a few hundred points in tight clusters (grids of adjacent floats around a few centres):
+        // the sweep skips many of them and inserts them one by one afterwards, with more than 256
+        // vertices the hierarchy hint generator has several layers by then
+        pts.clear();
+        let ulp = if tag == 'd' { 2f64.powi(-52) } else { 2f64.powi(-23) };
+        let g = 9 + rng.below(3) as i64;
+        let centres: [(f64, f64); 4] = [(1.0, 1.0), (-1.0, 1.0), (1.0, -1.0), (-1.0, -1.0)];
+        for &(cx, cy) in centres.iter().take(3 + rng.below(2) as usize) {
+            for i in 0..g {
+                for j in 0..g {
+                    pts.push((cx + i as f64 * ulp * cx.abs(), cy + j as f64 * ulp * cy.abs()));
+                }
+            }
+        }
+        for i in (1..pts.len()).rev() {
+            let j = rng.below(i as u64 + 1) as usize;
+            pts.swap(i, j);
+        }
+    }
     else if n >= 4 && rng.chance(300) {
         // one or two outliers far away from the rest: the last sweep steps see a large part of the
         // boundary at once (long clockwise / counter-clockwise walks, the 90-degree rule,
